@@ -13,6 +13,23 @@ CLAIMS = {
    text="Theorems (all expressions, all nesting depths, all stores): whatever the trampolined evaluator of the model returns for an expression, an operand list, a tail expression or a procedure application - a value, an error or a panic, together with the state reached - is derivable in the direct-style big-step semantics of Spec/EvalSpec.v (innermost binding, operands left to right exactly once, only #f false, fresh frame per call with internal definitions in order, (apply p a.. l) = (p a.. l1..ln)); in particular the chain of tail calls run by the trampoline loop is the nested evaluation the rules describe. Proved by induction on the fuel for nine mutually recursive functions; no bound on program size. The model is tied to interpreter.rs/parser.rs by evaluating seeded type-directed random programs form by form on both sides and comparing values, tick traces (order and multiplicity of operand evaluation) and output.",
    note=COMMON_NOTE + "; terminating programs (OutOfFuel excluded); the converse direction (every derivation is found by the evaluator given enough fuel) and determinism of the rules are not yet proved; builtins enter through the shared function builtin_call",
    technique="Coq proof: soundness of the trampolined evaluator for a big-step R7RS semantics (fuel induction) + differential correspondence on random typed programs"),
+ "C02": dict(
+   text="Theorems on the evaluator with the hook's depth counter threaded (Model/EvalD.v): it computes the values and states of the plain evaluator (erasure, so C01 applies: the loop computes the same result); every function returns at the depth at which it was entered; a procedure reached through a tail call is entered by the same loop iteration level as its caller (no depth consumed); and the loop rule: if every single iteration stays within D levels and re-establishes an invariant, the whole run of the trampoline stays within D levels, whatever the number of iterations. The model's depth is tied to the implementation by comparing the maximal nesting depth of the evaluator's Rust calls exactly (hook counter) for every composition of the 16 tail contexts (depth 1 all, depth 2 sampled/all) x 9 loop shapes at two iteration counts, and requiring it to be independent of the count.",
+   category="proof",
+   note=COMMON_NOTE + "; PARTIAL by nature: bytes of machine stack per nesting level and the live heap are runtime facts outside any theorem (the depth counter is what is compared); known finding F3 (tail call through apply consumes depth) is reported as KNOWN-FINDING; the heap clause (frames captured by their own closures are not freed, F4) is not measured by this check",
+   technique="Coq proof (erasure, depth invariants, loop rule by fuel induction) + exact depth correspondence through a cfg-guarded hook"),
+ "C03": dict(
+   text="Theorems: set! (env_set) changes exactly the binding of the name in the innermost frame of the chain that binds it and nothing else (no other binding of any frame, no parent link, no vector, no output); the change is seen through another environment iff its chain reaches the same defining frame; other names are never affected; an unbound name cannot be assigned; every procedure call binds its parameters in a frame that did not exist before; vector-set! changes exactly one cell of exactly the addressed vector, literal vectors reject mutation, vector-ref returns the stored value itself (aliases are addresses), vector/make-vector return fresh vectors; no builtin touches a frame. Tied to environment.rs / values.rs / base.rs by random histories of 20-60 top-level forms over counters made by generator procedures, global assignments and vectors aliased through variables, arguments, rest parameters, lists and other vectors, with the alias partition of every printed value compared (ptr_eq vs store address).",
+   note=COMMON_NOTE + "; Rc sharing is modelled as equality of store addresses; the lift of the store lemmas to whole histories is by the evaluator soundness of C01, not a separate refinement theorem",
+   technique="Coq proof (store lemmas: locality, sharing iff same defining frame, freshness) + differential correspondence on random alias histories"),
+ "C04": dict(
+   text="Theorems about the expander model: rules are tried in textual order and the first rule whose pattern matches decides, instantiated from that rule's own bindings only (bindings made by a failed rule are discarded); a use that matches no rule is the MacroMissMatch syntax error; _ and pattern variables match any form; a literal identifier matches exactly that symbol; a literal datum matches exactly an equal datum (prim_eqb is equality); a variable followed by an ellipsis matches the whole remaining run of one or more forms in order (induction on the run); (x ...) in a template is repeated once per matched item in order. Tied to macros.rs by Transformer::transform on (a) rule sets over 16 small patterns x 17 uses and (b) random nested rule sets (lists, vectors, literals, trailing ellipsis over variables and sub-lists, free symbols that other rules bind) with uses derived from the patterns and mutations; the expansion datum with locations, or the error kind, is compared.",
+   note="closed under the global context (no axioms); PARTIAL: the full refinement 'transform = structural matcher' for nested patterns under an ellipsis is not proved (covered by the correspondence); supported class only",
+   technique="Coq proof (rule-selection, leaf-pattern and ellipsis-run lemmas) + differential correspondence on exhaustive small and random rule sets"),
+ "C05": dict(
+   text="39 expansion equations, proved about the syntax table computed inside Coq from the CURRENT text of src/parser/grammar.sld (regenerated every run): for begin, let, let*, cond (else, =>, test-only), case (else, =>, compound key), and, or, when, unless and arbitrary sub-forms of any shape, the transformer yields exactly the R7RS derived-form expansion (e.g. (and e1 e2) = (if e1 (and e2) #f); (let ((x v) (y w)) b1 b2) = ((lambda (x y) b1 b2) v w); let* nests left to right; cond/case select the first clause, => receives the test value / key which is evaluated once). The equations mention neither pattern-variable names nor layout, so harmless edits re-prove; a semantic edit breaks a proof and the check then searches for a failing input with the model running the pinned reference sources. Meaning of the expansions: C01. Tied to the code by all pairs of derived forms nested in every position and random nested programs with ticking sub-forms (order and multiplicity of evaluation observed), plus scope probes (closures created in binding positions).",
+   note="closed under the global context; equations are for the listed clause shapes, not for arbitrary numbers of clauses; hygiene hypotheses explicit (known finding F1), an ellipsis needs one item (F2), top-level begin does not splice (F8) - each printed as KNOWN-FINDING with its witness",
+   technique="Coq proof by computation on the translated grammar.sld (source regenerated each run) + differential correspondence with tick traces; reference-mode search when a proof breaks"),
  "C08": dict(
    text="Theorems: the evaluator reports an error, with the state in which it was raised, only where the context-free big-step rules raise it (soundness, all calling contexts at once because the rules have no notion of context: direct call, tail call through the trampoline, apply, calls from library closures); every application checks the argument count (on the rules, and directly on the trampoline); a call yields a value only if its operator evaluated to a procedure, a reference/assignment only if the variable is bound; along any evaluation, failing or not, no frame and no vector disappears (effects are kept, nothing is rolled back). Tied to the code by valid random programs with one injected fault: 8 fault kinds x 5 calling contexts x position, with an effect completed before the fault and forms reading the state afterwards; kinds compared model vs implementation and against the kind the fault calls for.",
    note=COMMON_NOTE + "; single-fault programs; error locations are C15's subject and are not compared here",
